@@ -109,6 +109,20 @@ mutual
     | (k, v) :: kvs => "\"" ++ escapeStr k ++ "\":" ++ render v ++ "," ++ renderKvs kvs
 end
 
+mutual
+  /-- recursive key sort, so that dict order never matters in comparisons -/
+  def normalize : Json → Json
+    | .arr xs => .arr (normalizeList xs)
+    | .obj kvs => .obj (sortKvs (normalizeKvs kvs))
+    | j => j
+  def normalizeList : List Json → List Json
+    | [] => []
+    | x :: xs => normalize x :: normalizeList xs
+  def normalizeKvs : List (String × Json) → List (String × Json)
+    | [] => []
+    | (k, v) :: kvs => (k, normalize v) :: normalizeKvs kvs
+end
+
 /-! ### wire codec: space separated prefix tokens
   `N` `T` `F` `I<int>` `R<int>` `Rx` `S<hex utf8>` `L<n> …` `O<n> S<key> v …` -/
 
